@@ -32,7 +32,10 @@ CLASSES = (
     "unknown-name arguments (pieces, paddings, case variants), records out of time order with repeated stamps and "
     "leading zeros, the same functions / simulations called from several THREADS at once (module-level scratch buffers "
     "and caches are looked for), shallow copies of objects, tables whose pseudopressure is referenced to a pressure "
-    "inside the table (negative values), user-supplied interpolator objects of any kind"
+    "inside the table (negative values), user-supplied interpolator objects of any kind, arguments a hair (one ulp .. 1e-5 "
+    "relative) outside a table, the caller's table or array edited in place AFTER the call / between two back-to-back "
+    "calls, objects constructed with one setting and then called with another, inadmissible arguments through every "
+    "public entry point, maximum pressures far above the default range"
 )
 
 os.makedirs(OUT, exist_ok=True)
